@@ -9,6 +9,7 @@ func init() {
 	vxRegister("H13bT", H13bT)
 	vxRegister("H13c", H13c)
 	vxRegister("H13dQ", H13dQ)
+	vxRegister("H13d2Q", H13d2Q)
 	vxRegister("H13dT", H13dT)
 }
 
@@ -76,6 +77,32 @@ func vxV1Value(n int) string {
 		s += vxV1Words[vxChoice(3)]
 	}
 	return s
+}
+
+// H13d2Q: two verbatim copies of the same known value in one unknown string - each copy is reported with
+// confidence 1.0 at exactly its own Offset/Extent (the exact-occurrence scan advances past the first copy).
+func H13d2Q() {
+	val := vxV1Value(3)
+	c := New(DefaultConfidenceThreshold)
+	c.AddValue("v", val)
+	pre := []string{"", "delta ", "delta epsilon "}[vxChoice(3)]
+	mid := []string{" ", " zeta ", " zeta eta theta "}[vxChoice(3)]
+	post := []string{"", " eta"}[vxChoice(2)]
+	u := pre + val + mid + val + post
+	second := len(pre) + len(val) + len(mid)
+	ms := c.MultipleMatch(u)
+	f1, f2 := false, false
+	for _, m := range ms {
+		if m.Name == "v" && m.Extent == len(val) && m.Confidence == 1.0 {
+			f1 = f1 || m.Offset == len(pre)
+			f2 = f2 || m.Offset == second
+		}
+		vxAssert("offset-inside", m.Offset >= 0 && m.Offset+m.Extent <= len(u))
+		vxAssert("confidence-range", m.Confidence > 0 && m.Confidence <= 1)
+	}
+	vxAssert("first-copy-reported-exactly", f1)
+	vxAssert("second-copy-reported-exactly", f2)
+	vxCover("end")
 }
 
 func H13dQ() { h13d(4) }
